@@ -24,7 +24,7 @@ unshare -m sh -c '
     cd "$BASE/verif" || exit 2
     if [ "$KIND" = neutral ]; then
         res=""
-        for p in C15 C16 C20; do ./run.sh $p quick >"$BASE/neutral-$p.log" 2>&1; res="$res $p=$?"; done
+        for p in ${NEUTRAL_PROPS:-C15 C16 C20}; do ./run.sh $p quick >"$BASE/neutral-$p.log" 2>&1; res="$res $p=$?"; done
         case "$res" in *"=1"*|*"=2"*) echo "ALARM$res" ;; *) echo "QUIET$res" ;; esac
         # what the quiet covered: skipped passes, programs set aside, concurrent-pass reach
         grep -ah "^note:\|skipped\|set aside\|concurrent pass:\|discarded" "$BASE"/neutral-C*.log | cut -c1-300
